@@ -17,6 +17,43 @@ def parse_events(line):
     return head.split(), evs
 
 
+THROW_OPS = ("popthrow", "cothrow", "pushthrow", "pushmv", "upushthrow")
+
+
+def fault_plan(w, gi):
+    """(g, n) of `popthrow g [n]` / `cothrow g [n]` (gi = 1), `pushmv v g [n]` / `upushthrow c [g [n]]` (gi = 2)"""
+    g = int(w[gi]) if len(w) > gi else 1
+    n = int(w[gi + 1]) if len(w) > gi + 1 else 1
+    return g, n
+
+
+def admission_ok(push_evs, blocked, max_fail):
+    """C10 for the pushes a delivering pop completed, `blocked` = the blocked push ids in arrival order: "blocked pushes
+    complete in arrival order, one per pop" - the completed ones are the oldest ones, in order; all of them but the last were
+    failed by their own item (possible only while hand-overs throw: at most `max_fail`), the last one is admitted - or every
+    blocked push failed.  Returns (message | None, ids failed, id admitted | None)."""
+    ids = [i for i, o in push_evs]
+    if ids != blocked[:len(ids)]:
+        return "blocked-fifo: pop completed the pushes %s, blocked (oldest first) were %s" % (ids, blocked), [], None
+    if not blocked:
+        return None, [], None
+    outs = [o for i, o in push_evs]
+    failed = [i for i, o in push_evs if o == "itemerr"]
+    if any(o not in ("ok", "itemerr") for o in outs):
+        return "blocked-fifo: pop completed blocked pushes with %s" % outs, [], None
+    if len(failed) > max_fail:
+        return ("blocked-fifo: pop failed the blocked pushes %s with their item's exception although at most %d hand-overs "
+                "throw" % (failed, max_fail)), [], None
+    if outs.count("ok") > 1:
+        return "blocked-fifo: pop admitted %d blocked pushes" % outs.count("ok"), [], None
+    if "ok" in outs and outs[-1] != "ok":
+        return "blocked-fifo: pop failed a blocked push behind the one it admitted: %s" % push_evs, [], None
+    if "ok" not in outs and len(ids) < len(blocked):
+        return ("blocked-fifo: pop did not admit the oldest blocked push that could be admitted (completed %s, blocked %s)"
+                % (push_evs, blocked)), [], None
+    return None, failed, (ids[-1] if "ok" in outs else None)
+
+
 class LQSuite(Suite):
     name = "lq-sequential"
     harness = HARNESS
@@ -24,29 +61,85 @@ class LQSuite(Suite):
     corpus_prefix = "c10_"
     nontrivial_rule = "at least one push blocked or one pop parked"
 
+    @staticmethod
+    def _mk(limit, cfg, ops):
+        lines = ["case 0 lq %d%s" % (limit, (" " + cfg) if cfg else "")]
+        v = 100
+        for o in ops:
+            if o == "push":
+                lines.append("push %d" % v)
+                v += 1
+            elif o.startswith("pushmv"):
+                w = o.split()
+                lines.append("pushmv %d %s" % (v, " ".join(w[1:])))
+                v += 1
+            else:
+                lines.append(o)
+        lines.append("end")
+        return {"id": 0, "lines": lines}
+
     def gen_cases(self, rng, tier):
-        n = 400 if tier == "quick" else 12000
         cases = []
+        cfgs = ["", "cp", "nl"]
+        # 1. the retry scenario: fill the queue, block k producers, one pop under every small fault plan (delivery, admission
+        #    of the first / second blocked producer ...), from a plain call and from a coroutine, then pops until drained
+        k_ = 0
+        for limit in (1, 2, 3, 4):
+            for k in range(0, 4):
+                for g in (1, 2, 3):
+                    for n in (1, 2, 3):
+                        if n == 3 and tier == "quick" and (limit + k + g) % 2:
+                            continue
+                        for kind in ("popthrow", "cothrow"):
+                            ops = ["push"] * (limit + k) + ["%s %d %d" % (kind, g, n), "size"] + ["pop"] * (limit + k + 1)
+                            cases.append(self._mk(limit, cfgs[k_ % 3], ops))
+                            k_ += 1
+        # 2. every short history over the throwing operations
+        alpha = ["push", "pop", "popthrow 1", "popthrow 2", "cothrow 1", "pushthrow", "pushmv 1"]
+        for limit in (1, 2):
+            for n in range(2, (4 if tier == "quick" else 5) - (limit - 1) + 1):
+                for ops in itertools.product(alpha, repeat=n):
+                    if any(o.split()[0] in THROW_OPS for o in ops) and any(o.startswith("push") for o in ops):
+                        cases.append(self._mk(limit, cfgs[k_ % 3], list(ops) + ["pop", "pop"]))
+                        k_ += 1
+        # 3. random histories; every second one with throwing items
+        n = 400 if tier == "quick" else 12000
         for i in range(n):
             limit = rng.choice([1, 1, 2, 2, 3, 4])
             nops = rng.randint(3, 14) if rng.random() < 0.3 else rng.randint(10, 45)
             # bias: producer-heavy, consumer-heavy or balanced phases
-            # one case in four: Lock = primitives::no_lock (single-threaded use is its contract; same behaviour expected)
-            lines = ["case 0 lq %d%s" % (limit, " nl" if i % 4 == 3 else "")]
+            # one case in four: Lock = primitives::no_lock (single-threaded use is its contract; same behaviour expected),
+            # one in four: the copy-only item type
+            lines = ["case 0 lq %d%s" % (limit, " nl" if i % 4 == 3 else (" cp" if i % 4 == 1 else ""))]
+            throwing = i % 2 == 0
+            tp = rng.choice([0.1, 0.25, 0.5]) if throwing else 0.0
             v = 100
             bias = rng.choice([0.3, 0.5, 0.7])
             for k in range(nops):
                 if rng.random() < 0.15:
                     bias = rng.choice([0.2, 0.5, 0.8])
                 r = rng.random()
+                plan = "%d %d" % (rng.choice([1, 1, 2, 2, 3]), rng.choice([1, 1, 1, 2, 3]))
                 if r < 0.78:
                     if rng.random() < bias:
-                        lines.append("push %d" % v)
-                        v += 1
+                        if rng.random() < tp:
+                            if rng.random() < 0.5:
+                                lines.append("pushthrow")
+                            else:
+                                lines.append("pushmv %d %s" % (v, plan))
+                                v += 1
+                        else:
+                            lines.append("push %d" % v)
+                            v += 1
+                    elif rng.random() < tp:
+                        lines.append("%s %s" % (rng.choice(["popthrow", "cothrow"]), plan))
                     else:
                         lines.append("pop")
                 elif r < 0.86:
-                    lines.append("upush %d" % rng.randint(1, 9))
+                    if rng.random() < tp:
+                        lines.append("upushthrow %d %s" % (rng.randint(1, 9), plan))
+                    else:
+                        lines.append("upush %d" % rng.randint(1, 9))
                 elif r < 0.92:
                     lines.append("upop %d" % rng.randint(1, 9))
                 elif r < 0.97:
@@ -64,7 +157,7 @@ class LQSuite(Suite):
 
     def stats(self, cases, outs):
         ops = {}
-        blocked = parked = 0
+        blocked = parked = threw = failed_adm = 0
         for c in cases:
             for l in c["lines"][1:-1]:
                 k = l.split()[0]
@@ -72,12 +165,19 @@ class LQSuite(Suite):
             o = outs.get(str(c["id"]), [])
             blocked += sum(1 for l in o if l.startswith("push#") and l.split()[1] == "pending")
             parked += sum(1 for l in o if l.startswith("pop#") and l.split()[1] == "pending")
-        return {"ops": ops, "pushes_blocked": blocked, "pops_parked": parked,
+            threw += sum(1 for l in o if l.split(" ;")[0].endswith(" threw"))
+            failed_adm += sum(l.count("=itemerr") for l in o)
+        return {"ops": ops, "pushes_blocked": blocked, "pops_parked": parked, "calls_that_threw": threw,
+                "blocked_pushes_failed_by_their_item": failed_adm,
                 "lock_no_lock_cases": sum(1 for c in cases if c["lines"][0].split()[4:5] == ["nl"]),
+                "copy_only_item_cases": sum(1 for c in cases if c["lines"][0].split()[4:5] == ["cp"]),
                 "limits": sorted({c["lines"][0].split()[3] for c in cases if len(c["lines"][0].split()) > 3})}
 
     def oracle(self, case, out):
-        """the statement of C10 evaluated on the implementation's trace (values are unique per case)"""
+        """the statement of C10 evaluated on the implementation's trace (values are unique per case).  Items may throw:
+        `pushthrow` (refuses construction), `popthrow` / `cothrow` / `pushmv` / `upushthrow` (hand-overs throw during the call).
+        A call that throws must leave everything as it was (the retry gets the same item); a blocked push may be failed
+        by its own item when a pop admits it - then the item is withdrawn and the next blocked push is admitted."""
         msgs = []
         hdr = case["lines"][0].split()
         if hdr[2] != "lq":
@@ -85,16 +185,32 @@ class LQSuite(Suite):
         limit = int(hdr[3])
         ops = case["lines"][1:]
         push_val = {}        # push id -> value
-        push_state = {}      # push id -> 'ok' | 'pending' | 'exc' | 'canceled'
+        push_state = {}      # push id -> 'ok' | 'pending' | 'exc' | 'canceled' | 'itemerr'
         pop_state = {}       # pop id -> outcome string or 'pending'
-        n_items = 0          # items accepted and not yet handed out
+        queue = []           # values accepted and not yet handed out, oldest first
         alive = True
         for op, line in zip(ops, out):
             w = op.split()
             head, evs = parse_events(line)
             pend_push = sorted(i for i, s in push_state.items() if s == "pending")
             pend_pop = sorted(i for i, s in pop_state.items() if s == "pending")
-            if w[0] == "push" and alive:
+            n_items = len(queue)
+            threw = len(head) > 1 and head[-1] == "threw"
+            if not alive:
+                pass
+            elif threw:
+                # failure atomicity: the call left by an exception - no future, and nothing else may have changed
+                if w[0] not in THROW_OPS:
+                    msgs.append("spurious: `%s` threw although no item throws" % op)
+                if w[0] == "pushthrow" and pend_pop:
+                    # the oldest waiting consumer had been taken for the hand-over: it may complete as canceled
+                    if any((k, i, o) != ("pop", pend_pop[0], "canceled") for k, i, o in evs):
+                        msgs.append("atomic: a push that threw resolved %s" % evs)
+                elif evs:
+                    msgs.append("atomic: `%s` threw and resolved %s - a call that throws must change nothing" % (op, evs))
+            elif w[0] == "pushthrow":
+                msgs.append("spurious: the push of an item that refuses construction returned normally (%s)" % " ".join(head))
+            elif w[0] in ("push", "pushmv"):
                 m = re.match(r"push#(\d+)", head[0])
                 pid = int(m.group(1))
                 push_val[pid] = int(w[1])
@@ -104,31 +220,44 @@ class LQSuite(Suite):
                         msgs.append("backpressure: push did not complete although a consumer was waiting")
                     if not any(k == "pop" and i == pend_pop[0] and o == "v:%s" % w[1] for k, i, o in evs):
                         msgs.append("order: push with waiting consumers did not go to the oldest one")
+                    push_state[pid] = "ok"
+                    # the item goes straight to the consumer
+                    queue.append(int(w[1]))
+                    queue.pop(0)
                 elif n_items < limit:
                     if st != "ok":
                         msgs.append("backpressure: push blocked with %d < limit %d items waiting" % (n_items, limit))
-                    n_items += 1
+                    queue.append(int(w[1]))
                 else:
                     if st != "pending":
                         msgs.append("backpressure: push completed with %d >= limit %d items waiting" % (n_items, limit))
-                push_state[pid] = "ok" if st == "ok" else "pending"
-            elif w[0] == "pop" and alive:
+                if not pend_pop:
+                    push_state[pid] = "ok" if st == "ok" else "pending"
+            elif w[0] in ("pop", "popthrow", "cothrow"):
                 m = re.match(r"pop#(\d+)", head[0])
                 pp = int(m.group(1))
                 st = head[1]
                 pop_state[pp] = st
                 if st.startswith("v:"):
-                    n_items -= 1
-                    if pend_push:
-                        if not any(k == "push" and i == pend_push[0] and o == "ok" for k, i, o in evs):
-                            msgs.append("blocked-fifo: pop did not admit the oldest blocked push")
-                        if sum(1 for k, i, o in evs if k == "push") != 1:
-                            msgs.append("blocked-fifo: pop admitted %d blocked pushes" % sum(1 for k, i, o in evs if k == "push"))
-                        n_items += 1
+                    if not queue:
+                        msgs.append("spurious: pop returned %s although nothing is waiting" % st)
+                    else:
+                        v = queue.pop(0)
+                        if st != "v:%d" % v:
+                            msgs.append("order: pop#%d got %s, the oldest waiting item is %d" % (pp, st, v))
+                    max_fail = fault_plan(w, 1)[1] if w[0] != "pop" else 0
+                    pevs = [(i, o) for k, i, o in evs if k == "push"]
+                    bad, failed, admitted = admission_ok(pevs, pend_push, max_fail)
+                    if bad:
+                        msgs.append(bad)
+                    elif admitted is not None:
+                        queue.append(push_val[admitted])
                 elif st == "pending":
                     if n_items > 0 or pend_push:
                         msgs.append("lost: pop parked although items were available")
-            elif w[0] == "upush" and alive:
+                else:
+                    msgs.append("spurious: pop returned %s" % st)
+            elif w[0] in ("upush", "upushthrow"):
                 r = head[1]
                 if pend_push:
                     if r != "1" or not any(k == "push" and i == pend_push[0] and o.startswith("exc") for k, i, o in evs):
@@ -137,12 +266,15 @@ class LQSuite(Suite):
                         msgs.append("unblock_push: affected other futures")
                 elif r != "0" or evs:
                     msgs.append("unblock_push: reported success/effect with nothing blocked")
-            elif w[0] == "size" and alive:
+            elif w[0] == "size":
                 if int(head[1]) > limit:
                     msgs.append("size: size() %s exceeds limit %d" % (head[1], limit))
                 if int(head[1]) != n_items:
                     msgs.append("size: size() %s but %d items are waiting" % (head[1], n_items))
-            elif w[0] in ("destroy", "end"):
+            elif w[0] == "empty":
+                if (head[1] == "1") != (n_items == 0):
+                    msgs.append("size: empty() %s but %d items are waiting" % (head[1], n_items))
+            if w[0] in ("destroy", "end"):
                 alive = False
             for k, i, o in evs:
                 if k == "pop":
@@ -153,6 +285,10 @@ class LQSuite(Suite):
                     if push_state.get(i) != "pending":
                         msgs.append("duplicate: push#%d resolved twice or never issued" % i)
                     push_state[i] = "ok" if o == "ok" else o
+            # back-pressure, at rest: nobody is blocked in front of a free slot
+            if alive and any(s == "pending" for s in push_state.values()) and len(queue) < limit:
+                msgs.append("backpressure: pushes %s are blocked although only %d < limit %d items are waiting (after `%s`)"
+                            % (sorted(i for i, s in push_state.items() if s == "pending"), len(queue), limit, op))
             if w[0] in ("destroy", "end"):
                 break
         # conservation and order: items handed out, in pop arrival order, = prefix of the surviving pushes
@@ -166,7 +302,12 @@ class LQSuite(Suite):
             msgs.append("order: delivered %s is not the prefix of the pushed sequence %s" % (got, surv))
         if any(s == "pending" for s in list(pop_state.values()) + list(push_state.values())):
             msgs.append("hang: a future is still pending after the queue was destroyed")
-        return msgs
+        seen, res = set(), []
+        for m in msgs:
+            if m not in seen:
+                seen.add(m)
+                res.append(m)
+        return res
 
 
 SLQ_EV = re.compile(r"(pop|push)#(\d+)=(.*)")
@@ -187,12 +328,17 @@ class SLQSuite(Suite):
     nontrivial_rule = "at least one resolution was delayed past another operation's lock region"
 
     @staticmethod
-    def _mk(limit, ops):
-        lines = ["case 0 slq %d" % limit]
+    def _mk(limit, ops, cfg=""):
+        lines = ["case 0 slq %d%s" % (limit, (" " + cfg) if cfg else "")]
         v = 100
         for o in ops:
-            if o.split()[-1] == "push":
+            w = o.split()
+            if w[-1] == "push":
                 lines.append("%s %d" % (o, v))
+                v += 1
+            elif "pushmv" in w[:2]:
+                k = w.index("pushmv")
+                lines.append(" ".join(w[:k + 1] + [str(v)] + w[k + 1:]))
                 v += 1
             else:
                 lines.append(o)
@@ -216,9 +362,31 @@ class SLQSuite(Suite):
                     h = [k for k, o in enumerate(ops) if o.startswith("hold")]
                     if h and h[0] < n - 1 and "push" in ops:
                         cases.append(self._mk(limit, ops))
+        # throwing items: every short interleaving of pushes, pops under a fault plan (delivery / admission of a blocked
+        # producer throws), refusing items and delayed resolutions
+        talpha = ["push", "pop", "popthrow 1", "popthrow 2", "cothrow 1", "pushthrow", "deliver 0", "deliver 1"]
+        k_ = 0
+        for limit in (1, 2):
+            for n in range(2, (5 if tier == "quick" else 6) - (limit - 1) + 1):
+                for ops in itertools.product(talpha, repeat=n):
+                    if any(o.split()[0] in THROW_OPS for o in ops) and ops.count("push") >= 1:
+                        cases.append(self._mk(limit, ops, "cp" if k_ % 3 == 1 else ""))
+                        k_ += 1
+        # the admission loop under every small fault plan, the resolutions delayed past the next operations
+        for limit in (1, 2, 3):
+            for k in range(1, 4):
+                for g in (1, 2, 3):
+                    for n in (1, 2):
+                        for tail in (["deliver 0", "pop", "pop"], ["pop", "deliver 0", "pop"], ["push", "pop", "deliver 1", "deliver 0"],
+                                     ["upush 3", "size", "deliver 0", "deliver 0"]):
+                            ops = ["push"] * (limit + k) + ["popthrow %d %d" % (g, n)] + tail + ["pop"] * (limit + k)
+                            cases.append(self._mk(limit, ops, "cp" if k_ % 3 == 1 else ""))
+                            k_ += 1
         n = 2000 if tier == "quick" else 50000
         for i in range(n):
             limit = rng.choice([1, 1, 2, 2, 3, 4])
+            tp = rng.choice([0.0, 0.0, 0.15, 0.35])
+            plan = lambda: "%d %d" % (rng.choice([1, 1, 2, 2, 3]), rng.choice([1, 1, 1, 2, 3]))
             holdp = rng.choice([0.0, 0.08, 0.2])
             held = False
             nops = rng.randint(4, 14) if rng.random() < 0.3 else rng.randint(10, 60)
@@ -238,13 +406,24 @@ class SLQSuite(Suite):
                         held = False
                 elif held or rng.random() < holdp:
                     # the lock is (or becomes) held: whatever is issued now blocks; only the count of parked calls is tracked
-                    o = rng.choice(["push", "pop", "pop", "upush %d" % rng.randint(1, 9), "upop %d" % rng.randint(1, 9), "size"])
+                    o = rng.choice(["push", "pop", "pop", "upush %d" % rng.randint(1, 9), "upop %d" % rng.randint(1, 9), "size"]
+                                   + (["popthrow " + plan(), "pushthrow", "cothrow " + plan()] if tp else []))
                     ops.append(o if held else "hold " + o)
                     held = True
                     infl += 1
                 elif r < 0.72:
+                    # (the counts below only steer the generator; with throwing items they are approximate)
                     if rng.random() < bias:
-                        ops.append("push")
+                        if rng.random() < tp:
+                            if rng.random() < 0.5:
+                                ops.append("pushthrow")
+                                if parked:
+                                    parked -= 1
+                                    infl += 1
+                                continue
+                            ops.append("pushmv " + plan())
+                        else:
+                            ops.append("push")
                         if parked:
                             parked -= 1
                             infl += 1
@@ -253,7 +432,13 @@ class SLQSuite(Suite):
                         else:
                             blocked += 1
                     else:
-                        ops.append("pop")
+                        if rng.random() < tp:
+                            pl = plan()
+                            ops.append("%s %s" % (rng.choice(["popthrow", "popthrow", "cothrow"]), pl))
+                            if items and pl.startswith("1 "):
+                                continue
+                        else:
+                            ops.append("pop")
                         if items:
                             if blocked:
                                 blocked -= 1
@@ -263,6 +448,9 @@ class SLQSuite(Suite):
                         else:
                             parked += 1
                 elif r < 0.80:
+                    if rng.random() < tp:
+                        ops.append("upushthrow %d %s" % (rng.randint(1, 9), plan()))
+                        continue
                     ops.append("upush %d" % rng.randint(1, 9))
                     if blocked:
                         blocked -= 1
@@ -283,7 +471,7 @@ class SLQSuite(Suite):
                         infl -= 1
             if rng.random() < 0.25:
                 ops.append("destroy")
-            cases.append(self._mk(limit, ops))
+            cases.append(self._mk(limit, ops, "cp" if tp and i % 3 == 1 else ""))
         return cases
 
     def nontrivial(self, case, out):
@@ -318,7 +506,11 @@ class SLQSuite(Suite):
                     cur -= 1
                 elif cur:
                     delayed += 1
-        return {"limits": limits, "ops": ops, "calls_parked_before_resolution": paused,
+        threw = sum(1 for c in cases for l in outs.get(str(c["id"]), []) if re.search(r"[ :]threw( |$)", l.split(" ;")[0]))
+        failed_adm = sum(l.count("=itemerr") for c in cases for l in outs.get(str(c["id"]), []))
+        return {"limits": limits, "ops": ops, "calls_that_threw": threw, "blocked_pushes_failed_by_their_item": failed_adm,
+                "copy_only_item_cases": sum(1 for c in cases if c["lines"][0].split()[4:5] == ["cp"]),
+                "calls_parked_before_resolution": paused,
                 "max_resolutions_in_flight": max_inflight, "lock_regions_run_while_a_resolution_was_in_flight": delayed}
 
     def oracle(self, case, out):
@@ -327,7 +519,10 @@ class SLQSuite(Suite):
         region, each line is checked against what the statement prescribes for that lock step (back-pressure decision,
         FIFO of items / blocked pushes / waiting pops, unblock_*).  Always, whenever no call is in progress: a push future
         is pending only while exactly `limit` items wait, a pop future only while nothing waits and nothing is blocked;
-        every item delivered at most once, intact."""
+        every item delivered at most once, intact.
+        Throwing items (`pushthrow`, `pushmv`, `popthrow`, `cothrow`, `upushthrow`): a call that shows `threw` has no future and
+        must have changed nothing; a pop that delivers may fail the oldest blocked pushes with their own item's exception
+        (`itemerr`, at most as many as hand-overs throw) before it admits the next one (`admission_ok`)."""
         msgs = []
         hdr = case["lines"][0].split()
         if hdr[2] != "slq":
@@ -363,14 +558,38 @@ class SLQSuite(Suite):
             if pq and (n > 0 or pp):
                 msgs.append("lost: pop %s parked although %d items are waiting and pushes %s are blocked (%s)" % (pq, n, pp, where))
 
+        ALIAS = {"popthrow": "pop", "cothrow": "pop", "pushmv": "push", "pushthrow": "push", "upushthrow": "upush"}
+
         def takers(kinds):
-            return sum(1 for c in parked if c["type"] in ("deferred", "midcall") and c["w"][0] in kinds)
+            return sum(1 for c in parked if c["type"] in ("deferred", "midcall") and ALIAS.get(c["w"][0], c["w"][0]) in kinds)
 
         def apply(w, label, status):
             """the operation `w` takes effect now, returning / parking with `status`"""
             strict = not state["concurrent"]
             paused = status == "paused"
-            if w[0] == "push":
+            if status == "threw":
+                # failure atomicity: no future, nothing changed (whatever the call resolved is flagged as spurious by the caller)
+                if w[0] not in THROW_OPS:
+                    msgs.append("spurious: `%s` threw although no item throws" % " ".join(w))
+                if w[0] in ("popthrow", "cothrow"):
+                    pop_state[int(label[4:])] = "threw"
+                elif w[0] == "pushmv":
+                    push_state[int(label[5:])] = "threw"
+                return
+            if w[0] == "pushthrow":
+                if status == "nothrow":
+                    msgs.append("spurious: the push of an item that refuses construction returned normally")
+                elif strict and paused and waiters:
+                    # the oldest waiting consumer had been taken for the hand-over: it completes as canceled
+                    tgt = waiters.pop(0)
+                    parked.append({"type": "resolve", "tag": "pushthrow", "events": [("pop", tgt, "canceled")],
+                                   "ret": "pushthrow:threw", "own": None})
+                elif paused:
+                    if strict:
+                        msgs.append("spurious: a refused push took a promise with nobody waiting")
+                    parked.append({"type": "resolve", "loose": True, "pushthrow": True})
+                return
+            if w[0] in ("push", "pushmv"):
                 i = int(label[5:])
                 push_val[i] = int(w[1])
                 push_order.append(i)
@@ -392,7 +611,7 @@ class SLQSuite(Suite):
                         blocked.append(i)
                 elif paused:
                     parked.append({"type": "resolve", "loose": True})
-            elif w[0] == "pop":
+            elif w[0] in ("pop", "popthrow", "cothrow"):
                 i = int(label[4:])
                 pop_order.append(i)
                 pop_state[i] = "incall" if paused else status
@@ -402,12 +621,23 @@ class SLQSuite(Suite):
                     if queue:
                         v = queue.pop(0)
                         if blocked:
-                            b = blocked.pop(0)
-                            queue.append(push_val[b])
+                            # which blocked pushes the fault plan hits is decided under the lock but shown only when the call
+                            # resolves them: book the plan's own reading (hand-over 1 = delivery, 2.. = one per admission
+                            # candidate) and let the resolution line confirm it - any other *legal* outcome (admission_ok)
+                            # only ends the strict bookkeeping
+                            g, n = fault_plan(w, 1) if w[0] != "pop" else (0, 0)
+                            nfail = min(n, len(blocked)) if g == 2 else 0
+                            snapshot = list(blocked)
+                            events = [("push", blocked.pop(0), "itemerr") for _ in range(nfail)]
+                            if blocked:
+                                b = blocked.pop(0)
+                                queue.append(push_val[b])
+                                events.append(("push", b, "ok"))
                             if not paused:
                                 msgs.append("blocked-fifo: pop with pushes blocked must admit the oldest one (%s)" % status)
-                            parked.append({"type": "resolve", "tag": "blocked-fifo", "events": [("push", b, "ok")],
-                                           "ret": "pop#%d:v:%d" % (i, v), "own": ("pop", i, "v:%d" % v)})
+                            parked.append({"type": "resolve", "tag": "blocked-fifo", "events": events,
+                                           "ret": "pop#%d:v:%d" % (i, v), "own": ("pop", i, "v:%d" % v),
+                                           "blocked": snapshot, "max_fail": n if w[0] != "pop" else 0})
                         elif status != "v:%d" % v:
                             seen_ = [int(s_[2:]) for j, s_ in pop_state.items() if j != i and s_.startswith("v:")]
                             dup = status.startswith("v:") and status[2:].isdigit() and int(status[2:]) in seen_
@@ -418,7 +648,8 @@ class SLQSuite(Suite):
                         waiters.append(i)
                 elif paused:
                     parked.append({"type": "resolve", "loose": True})
-            elif w[0] in ("upush", "upop"):
+            elif w[0] in ("upush", "upop", "upushthrow"):
+                w = ["upush"] + w[1:] if w[0] == "upushthrow" else w
                 lst = blocked if w[0] == "upush" else waiters
                 fk = "push" if w[0] == "upush" else "pop"
                 if strict:
@@ -465,7 +696,11 @@ class SLQSuite(Suite):
                 if any(c["type"] != "resolve" for c in parked):
                     state["concurrent"] = True      # deferred calls take effect during the flush, in an order not shown
                 canceled_push = sorted(i for k, i, o in evs if k == "push" and o == "canceled")
-                canceled_pop = sorted(i for k, i, o in evs if k == "pop" and o == "canceled")
+                # (a pop canceled by a refused push whose resolution was still parked was not waiting in the queue any more)
+                refused = {i for c in parked if c["type"] == "resolve" and not c.get("loose")
+                           for k, i, o in c["events"] if k == "pop" and o == "canceled"}
+                unknown_refusal = any(c.get("pushthrow") or (c["type"] != "resolve" and c["w"][0] == "pushthrow") for c in parked)
+                canceled_pop = sorted(i for k, i, o in evs if k == "pop" and o == "canceled" and i not in refused)
                 if not state["concurrent"] and all(c["type"] == "resolve" and not c.get("loose") for c in parked):
                     want = []
                     for c in parked:
@@ -478,12 +713,20 @@ class SLQSuite(Suite):
                     if i not in st:
                         st[i] = "incall"        # a deferred call that took effect during the flush
                     settle_future(k, i, o)
+                # a deferred throwing call that took effect during the flush and threw leaves no future behind
+                for c in parked:
+                    if c["type"] != "resolve" and c["w"][0] in ("popthrow", "cothrow", "pushmv"):
+                        st = push_state if c["w"][0] == "pushmv" else pop_state
+                        i = int(c["label"].split("#")[1])
+                        if st.get(i) == "incall":
+                            st[i] = "threw"
                 # the moment after the last call returned and before the queue died
                 for i in canceled_push:
                     push_state[i] = "pending"
                 for i in canceled_pop:
                     pop_state[i] = "pending"
-                quiescent_check("at destruction")
+                if not unknown_refusal:
+                    quiescent_check("at destruction")
                 for i in canceled_push:
                     push_state[i] = "canceled"
                 for i in canceled_pop:
@@ -528,7 +771,13 @@ class SLQSuite(Suite):
                             if ret != c["ret"]:
                                 msgs.append("%s: the parked call must return %s, got %s" % (c["tag"], c["ret"], ret))
                             if evset != sorted(c["events"]):
-                                msgs.append("%s: the parked call must resolve exactly %s, got %s" % (c["tag"], sorted(c["events"]), evset))
+                                alt = None
+                                if c.get("max_fail") and all(k_ == "push" for k_, i, o in evs):
+                                    alt = admission_ok(sorted((i, o) for k_, i, o in evs), c["blocked"], c["max_fail"])[0]
+                                if c.get("max_fail") and alt is None:
+                                    state["concurrent"] = True      # legal, but not what was booked: no strict bookkeeping any more
+                                else:
+                                    msgs.append("%s: the parked call must resolve exactly %s, got %s" % (c["tag"], sorted(c["events"]), evset))
                     else:
                         want_r = "r=0" if c.get("holding") else "r=1"
                         if c["type"] == "midcall" or r != want_r:
@@ -539,10 +788,10 @@ class SLQSuite(Suite):
             else:
                 label, status = head[0], (head[1] if len(head) > 1 else "")
                 r = head[2] if len(head) > 2 else ""
-                if w[0] == "push":
+                if w[0] in ("push", "pushmv"):
                     push_state[int(label[5:])] = "incall"
                     push_val[int(label[5:])] = int(w[1])
-                elif w[0] == "pop":
+                elif w[0] in ("pop", "popthrow", "cothrow"):
                     pop_state[int(label[4:])] = "incall"
                 if status in ("holding", "blocked", "midcall"):
                     if status == "midcall":
@@ -587,18 +836,27 @@ class C10(Spec):
     trusted_base = ["hand-written model lean/CoclsModel/LimitedQueue.lean tied to queue.h by differential correspondence "
                     "(harness/h_queue.cpp vs lean/Drivers/C10.lean) on generated sequential histories and on scheduled interleavings "
                     "(every short history for limits 1-2 + random), including the number of lock regions per operation",
+                    "throwing items: the harness item types (move-only and copy-only, heap-owning, lifetime-tracking) throw from their "
+                    "constructor from arguments (`pushthrow`) or from the g-th .. (g+n-1)-th move/copy construction the calling thread performs "
+                    "during one call (`popthrow`/`cothrow`/`pushmv`/`upushthrow`), always before anything is moved (strong guarantee)",
                     "std::queue / std::mutex / promise resolution (C01/C02) taken as specified"]
     technique = "Lean 4 invariant proof (induction over all operation lists) + differential correspondence with the real header"
     level_text = ("Lean 4 theorems over an executable model of limited_queue (one step per lock region, out-of-lock resolutions as "
                   "separate steps): conservation/exactly-once, order, size<=limit, back-pressure, blocked-FIFO, unblock_push, one outcome "
-                  "per future, for every limit>=1 and every operation list; the model is tied to queue.h by running both on generated "
-                  "histories and diffing every line; property oracles run on the implementation trace")
+                  "per future, failed-push <=> withdrawn-item, for every limit>=1 and every operation list - including operations on items "
+                  "that refuse construction or whose g-th hand-over (move/copy construction) throws, for every fault plan: failure atomicity "
+                  "of pop / push / unblock_push (a call that throws changed nothing; retry delivers the same item), admission loop of pop "
+                  "(a blocked producer whose item throws on the way into the queue is failed with that exception, the next one admitted); "
+                  "the model is tied to queue.h by running both on generated histories and diffing every line; property oracles run on "
+                  "the implementation trace")
     level_note = ("trusted: Lean kernel (axioms propext/Classical.choice/Quot.sound at most), the hand-written model, the differential "
                   "harness (sampling), std::queue/std::mutex and the promise/future layer (C01/C02). Thread interleavings are covered by the "
                   "theorem (any interleaving of lock regions is an op list); on the real code they are exercised sequentially and by the "
                   "scheduled suite (limited_queue instantiated with a parking Lock: out-of-lock resolutions delayed past other lock regions, "
                   "any second lock region of one operation becomes an interleaving point, lock regions per operation compared with the model).")
-    assumptions = ["limit >= 1", "the queue is not destroyed while another thread is inside one of its methods"]
+    assumptions = ["limit >= 1", "the queue is not destroyed while another thread is inside one of its methods",
+                   "an item constructor that throws (from arguments, by move, by copy) leaves its source unchanged (strong guarantee); "
+                   "allocation failures of the containers themselves (std::deque / std::vector growth) are not modelled"]
 
     def suites(self):
         return [LQSuite(), SLQSuite()]
